@@ -1022,7 +1022,7 @@ fn run_case(w: &Worker, h: &Honest, case: &Case) -> Report {
             if accepted {
                 let verdict = judge_accepted(h, &st, &verified.digests, bounds, allow);
                 rep.outcome(match (&verdict, honest_case) {
-                    (Some(_), _) => "accepted(VIOLATION)",
+                    (Some(_), _) => "accepted(uncertified content or name: reported)",
                     (None, true) => "accepted(untampered)",
                     (None, false) => "accepted(tampering harmless for this range)",
                 });
